@@ -127,7 +127,7 @@ def shard(ctx, shard_no, nshards, n_random, stride):
 
     def body(inp):
         r = check_case(inp, limit=limit, stats=stats)
-        ctx.case(inp['text'], r in ('split', 'pushed'), 'random:' + r, sample=inp['text'] if r in ('split', 'pushed') else None)
+        ctx.case(sem.case_key(inp), r in ('split', 'pushed'), ('derived-input:' if inp.get('pre') else 'random:') + r, sample=inp['text'] if r in ('split', 'pushed') else None)
 
     with ctx.timed('random'):
         core.run_hypothesis(ctx, 'random', from_tape(sem.random_bool_case), body, n_random)
